@@ -56,6 +56,20 @@ def cases(tier, seed):
         if r.random() < 0.25:
             mem["nranks"] = 2        # twice the bank machines; the direction logic has to see requests of every rank
         cls = CLASSES[k % len(CLASSES)]
+        trefi = r.randint(100, 140)
+        long_window = None
+        if (k // len(CLASSES)) % 2 == 1:
+            # every second round of the direction classes: a window longer than 255 cycles for the adversary's direction
+            # (counter widths); the bound W scales with it.  The refresh interval is longer than the window in the first
+            # such round; in the next one it is shorter (the regime of the open finding C05-direction-window-restarts-at-refresh)
+            if cls in ("writes-vs-reader", "dir-stream-plus-rowmiss-w", "holes-w-vs-reader"):
+                cs["write_time"] = 300
+                long_window = "w"
+            if cls in ("reads-vs-writer", "dir-stream-plus-rowmiss-r", "holes-r-vs-writer"):
+                cs["read_time"] = 300
+                long_window = "r"
+            if long_window and (k // len(CLASSES)) % 4 == 1:
+                cs["with_refresh"] = False      # a refresh would end the window early
         nports = r.choice([2, 2, 3, 4]) if cls != "many-ports-one-bank" else r.choice([3, 4, 5])
         if cls.startswith("dir-stream-plus-rowmiss"):
             mem["bankbits"] = 2
@@ -66,9 +80,14 @@ def cases(tier, seed):
         wl = {"class": cls, "nops": 100000, "victim_ops": 100000, "master_mode": "fifo", "hot_rows": 2, "hot_cols": 2,
               "wr_frac": r.choice([0.0, 0.5, 1.0]) if cls in LOCKOUT_CLASSES else 0.5, "we_style": "full",
               "hole_period": r.choice([1, 1, 2, 5, 13]), "rowmiss_gap": r.choice([120, 250, 400])}
-        cfg = dict(mem=mem, cs=cs, nports=nports, workload=wl, seed="C05/%d/%d" % (seed, k), trefi_override=r.randint(100, 140),
+        if long_window:
+            # the victim offers one command at a time: with several queued in its bank machine the wait of the last one is
+            # (queue depth) x (window of the other direction) when its own window is short, which W does not model
+            wl["victim_serial"] = True
+        cfg = dict(mem=mem, cs=cs, nports=nports, workload=wl, seed="C05/%d/%d" % (seed, k), trefi_override=trefi,
                    max_cycles=0, sweep=False)
-        cfg["name"] = "%03d-%s-%s-p%d-d%d%s" % (k, fam, cls, nports, cs["cmd_buffer_depth"], "-2r" if mem.get("nranks") == 2 else "")
+        cfg["name"] = "%03d-%s-%s-p%d-d%d%s" % (k, fam, cls, nports, cs["cmd_buffer_depth"], "-2r" if mem.get("nranks") == 2 else "") + \
+            ("-%s300-%s" % (long_window, "ref%d" % trefi if cs["with_refresh"] else "noref") if long_window else "")
         cfg["cost"] = corecfg.cost_of(mem, nports, 4000)
         out.append(cfg)
     return out
@@ -92,6 +111,8 @@ def run_case(cfg):
         return dict(verdict="inconclusive", why="wall-clock watchdog", violations=[], stats={}, nontrivial=False, signature="")
     import bisect
     v = []
+    windows = dict(read_time=cfg["cs"].get("read_time", 32), write_time=cfg["cs"].get("write_time", 16),
+                   refresh_interval=timing.tREFI if cfg["cs"].get("with_refresh", True) else None)
     victim = tr.masters[0]
     others = tr.masters[1:]
     acc_times = {m.idx: [o.accept for o in m.accepted] for m in others}
@@ -125,7 +146,7 @@ def run_case(cfg):
         if w > 2 * W:
             v.append(dict(kind="victim-command-not-accepted-in-bound", op=o.brief(), waited_cycles=w, bound_cycles=2 * W,
                           overtaken_by_port=who, overtaking=n, bound_overtaking=K,
-                          still_waiting=o.accept is None,
+                          still_waiting=o.accept is None, windows=windows,
                           victim_bank=tr.amap.locate(o.addr)[:2],
                           overtaker_banks=sorted(set(tr.amap.locate(x.addr)[:2] for x in tr.masters[who].accepted
                                                      if t_off <= x.accept <= t_acc)) if who is not None else None))
@@ -140,7 +161,8 @@ def run_case(cfg):
                 completed += 1
             if w2 > 2 * W:
                 v.append(dict(kind="victim-data-not-served-in-bound", op=o.brief(), waited_cycles=w2, bound_cycles=2 * W,
-                              overtaken_by_port=who2, overtaking=n2, bound_overtaking=K, still_waiting=o.done is None))
+                              overtaken_by_port=who2, overtaking=n2, bound_overtaking=K, still_waiting=o.done is None,
+                              windows=windows))
                 break
     if tr.state["hang"]:
         v.append(dict(kind="deadlock-drain-bound-exceeded", detail=tr.state["hang"]))
